@@ -146,7 +146,23 @@ def r1_tables(program, rep):
                     "the chip (or a multi-source error is raised for routes "
                     "that do not conflict)", st_)
     # -- creation of a new (key, mask) on a chip ---------------------------------
-    pairs = calls_in(fn, "InOutPair")
+    # the record type: the namedtuple with fields (ins, outs) made in this
+    # function, whatever it is called
+    NT = "InOutPair"
+    for st_ in ast.walk(fn):
+        if isinstance(st_, ast.Assign) and len(st_.targets) == 1 and \
+                isinstance(st_.targets[0], ast.Name) and \
+                isinstance(st_.value, ast.Call) and \
+                call_name(st_.value)[0] == "namedtuple" and \
+                len(st_.value.args) == 2:
+            spec_ = st_.value.args[1]
+            flds_ = spec_.value.replace(",", " ").split() if isinstance(
+                spec_, ast.Constant) and isinstance(spec_.value, str) else [
+                e_.value for e_ in getattr(spec_, "elts", [])
+                if isinstance(e_, ast.Constant)]
+            if sorted(flds_) == ["ins", "outs"]:
+                NT = st_.targets[0].id
+    pairs = calls_in(fn, NT)
     if not pairs or not calls_in(fn, "RoutingTableEntry") or not any(
             raise_name(r) == "MultisourceRouteError" for r in raises_of(fn)):
         raise AnalysisError("routing_tree_to_tables: the per-chip records "
@@ -159,7 +175,7 @@ def r1_tables(program, rep):
     if okp:
         pc = pairs[0]
         create_node = cfg.node_containing(pc)
-        f = _bind_nt(program, UT, "InOutPair", pc)
+        f = _bind_nt(program, UT, NT, pc)
         st = pc._parent
         okp = isinstance(st, ast.Assign) and len(st.targets) == 1 and \
             isinstance(st.targets[0], ast.Subscript) and st.value is pc
